@@ -20,10 +20,11 @@ Definition E_FUEL : Z := 99.     (* model artefact, excluded by tlv_scan_fuel_ok
 Definition P_TLV_ITER_UNWRAP : Z := 4101.  (* TlvSetIterator::next: Tlv::deserialize(..).unwrap() *)
 
 (* ---------- integers on the wire ---------- *)
+(* n-byte big-endian two's-complement encoding of v (to_be_bytes of the n-byte integer type) *)
 Fixpoint be (n : nat) (v : Z) : bytes :=
   match n with
   | O => []
-  | S k => (v / 256 ^ Z.of_nat k) mod 256 :: be k v
+  | S k => be k (v / 256) ++ [v mod 256]
   end.
 Definition unbe (l : bytes) : Z := fold_left (fun a b => a * 256 + b) l 0.
 
